@@ -5,19 +5,6 @@
 HERE="$(cd "$(dirname "$0")/.." && pwd)"
 J="${1:-4}"
 OUT="${REGRESS_OUT:-/tmp/regress_seeds}"; mkdir -p "$OUT"
-one() {
-  d="$1"; id=$(basename "$d"); P=$(echo "$id" | cut -c1-3)
-  W=$(mktemp -d /tmp/rg_XXXXXX); cp -r /repo/tempest "$W"/
-  if ! (cd "$W" && patch -p1 -s --dry-run < "$d/patch.diff" >/dev/null 2>&1); then echo "$id patch-does-not-apply"; rm -rf "$W"; return; fi
-  (cd "$W" && patch -p1 -s < "$d/patch.diff")
-  ISO_SRC="$HERE" "$HERE/tools/isocheck.sh" "$W" "$P" quick "$OUT/$id.log" > "$OUT/$id.out" 2>&1
-  if grep -q "^VIOLATION.*no-failing-input-found" "$OUT/$id.log"; then echo "$id caught(no-failing-input-found)";
-  elif grep -q "^VIOLATION" "$OUT/$id.log"; then echo "$id caught";
-  elif grep -q "INFRASTRUCTURE" "$OUT/$id.log"; then echo "$id INFRA-ERROR";
-  else echo "$id MISSED"; fi
-  rm -rf "$W"
-}
-export -f one 2>/dev/null
 for d in "$HERE"/seeded/*/; do echo "$d"; done | xargs -P "$J" -I{} sh -c '
   d="{}"; d=${d%/}; id=$(basename "$d"); P=$(echo "$id" | cut -c1-3); HERE="'"$HERE"'"; OUT="'"$OUT"'"
   W=$(mktemp -d /tmp/rg_XXXXXX); cp -r /repo/tempest "$W"/
